@@ -37,10 +37,10 @@ Proof. exact partition. Qed.
 
 Example C15_partition_ex :
   (exists st, run 3 ex_cfg ex_ds = Ok st /\
-     map std_tag (s_std st) = [(0x0008, 0x0060); (0x0008, 0x1140); (0x0020, 0x0013); (0x0020, 0x0032)] /\
+     map std_tag (s_std st) = [(0x0008, 0x0060); (0x0008, 0x1140); (0x0018, 0x0050); (0x0020, 0x0013); (0x0020, 0x0032)] /\
      map fst (s_tmeta st) = [lit "T1"]) /\
   kinds_from ex_cfg [] ex_ds =
-    [KPlain; KBlank; KNoValue; KSequence; KPlain; KPlain; KIgnored; KIgnored; KTranslated; KIgnored; KNoValue; KIgnored; KIgnored; KIgnored].
+    [KPlain; KBlank; KNoValue; KSequence; KPlain; KPlain; KPlain; KIgnored; KIgnored; KTranslated; KIgnored; KNoValue; KIgnored; KIgnored; KIgnored].
 Proof. split; [exact ex_run | exact ex_kinds]. Qed.
 
 (** Nothing an ignore rule matches reaches standard_meta; translator results come only from elements whose tag was
